@@ -22,7 +22,7 @@ pub fn def() -> PropDef {
             "non-default reconciliation parameters are injected through the SyncConfig::default() override hook; Replica itself always uses the default",
         ],
         bound: |t| match t {
-            Tier::Quick => json!({"families": ["S12<=3: all ordered pairs, default parameters, memory", "S12<=2 non-trivial pairs: parameters (1,3),(2,2),(3,4) in memory, default on file-backed"], "message_bound": "4 + 2*(|SA|+|SB|)"}),
+            Tier::Quick => json!({"families": ["S12<=3: all ordered pairs, default parameters, memory", "large family (7-entry base, <=2 substitutions): base<->variant, default, memory", "S12<=2 non-trivial pairs: parameters (1,3),(2,2),(3,4) in memory, default on file-backed"], "message_bound": "4 + 2*(|SA|+|SB|)"}),
             Tier::Thorough => json!({"families": ["S16<=3: all ordered pairs, default, memory", "S24<=2: all ordered pairs, all four parameter settings, memory; non-trivial pairs default on file", "large family (7-entry base, <=2 substitutions): all ordered pairs default memory; base<->variant all parameters both backends"], "message_bound": "4 + 2*(|SA|+|SB|)"}),
         },
         run,
@@ -178,6 +178,14 @@ fn run(ctx: &Ctx, report: &mut Report) {
                 for b in &s12_3 {
                     exec(report, a, b, DEFAULT_CFG, BackendKind::Mem);
                 }
+            }
+            // larger states (7..9 entries per side: two and three levels of range splitting)
+            let large = large_family();
+            report.fact("states_large", json!(large.len()));
+            let base = &large[0];
+            for v in &large {
+                exec(report, base, v, DEFAULT_CFG, BackendKind::Mem);
+                exec(report, v, base, DEFAULT_CFG, BackendKind::Mem);
             }
             let s12 = states_from_subsets(&universe12(), 2);
             report.fact("states_S12_le2", json!(s12.len()));
